@@ -7,7 +7,7 @@
 From Coq Require Import List NArith Permutation.
 Import ListNotations.
 Require Import Base.Wire Base.PyStr C20.Model C20.AuxList C20.Sort C20.Lemmas C20.History C20.Failure
-               C20.Invariant C20.Dispatch C20.Sharing C20.Examples.
+               C20.Invariant C20.Dispatch C20.Sharing C20.Examples C20.Lookup.
 
 (* addCallback, for EVERY set-iteration oracle: either the new list is a permutation of
    old ++ [new] in which every declared edge (a before b) holds, or AssertionError is raised and
@@ -331,3 +331,37 @@ Proof.
   destruct history6_resolution as [_ H]. exact H.
 Qed.
 Print Assumptions C20_history_example.
+
+(* ================= which plugin a name resolves to (plugin.loadPluginModule) ================= *)
+(* the directory entry resolved for a requested name is the plugin of that name up to case -- never
+   another one (not one whose name merely starts with it, not one a regular expression would match).
+   Full statement: the domain plain_name and the refuting witness went with fix C20.F25. *)
+Theorem C20_module_resolved_is_named :
+  forall lower world n p, find_spec lower world n = Some p ->
+  In p world /\ lower (p_name p) = lower n.
+Proof. exact find_spec_named. Qed.
+Print Assumptions C20_module_resolved_is_named.
+
+(* a plugin of that name (any case) on disk is always found *)
+Theorem C20_module_resolved_complete :
+  forall lower world n p, In p world -> lower (p_name p) = lower n ->
+  exists q, find_spec lower world n = Some q.
+Proof. exact find_spec_complete. Qed.
+Print Assumptions C20_module_resolved_complete.
+
+(* a `load n` answering success registers exactly one more callback, named n up to case *)
+Theorem C20_load_registers_named :
+  forall lower world s n imp initf o s', perm_oracle o -> wf_st lower s ->
+  owner_load lower world s n imp initf o = (s', Ok 0%N) ->
+  exists c, lower (cname c) = lower n /\ Permutation (s_cbs s') (s_cbs s ++ [c]).
+Proof. exact load_registers_named. Qed.
+Print Assumptions C20_load_registers_named.
+
+(* non-vacuity: `al` -> Al and `ALPHA`/`Alpha` -> Alpha with both on disk; `Alph.` and `.*` -> nothing *)
+Theorem C20_lookup_example :
+  (option_map p_name (find_spec lower_ascii w_fam n_al) = Some nAl /\
+   option_map p_name (find_spec lower_ascii w_fam n_ALPHA) = Some nAlpha /\
+   option_map p_name (find_spec lower_ascii w_fam nAlpha) = Some nAlpha) /\
+  (find_spec lower_ascii w_dot nAlphDot = None /\ find_spec lower_ascii w_dot nDotStar = None).
+Proof. split; [exact lookup_example|exact lookup_metachar_example]. Qed.
+Print Assumptions C20_lookup_example.
